@@ -26,6 +26,8 @@ func cliYAML(trace string) string {
 	for i := 1; i <= 3; i++ {
 		fmt.Fprintf(&b, "  okTask%d:\n    command: [\"echo okTask%d >> %s\"]\n", i, i, trace)
 		fmt.Fprintf(&b, "  failTask%d:\n    command: [\"echo failTask%d >> %s; exit 3\"]\n", i, i, trace)
+		fmt.Fprintf(&b, "  failHook%d:\n    before: [\"echo failHook%d >> %s; exit 1\"]\n    command: [\"true\"]\n", i, i, trace)
+		fmt.Fprintf(&b, "  failVar%d:\n    command: [\"echo failVar%d >> %s\", \"echo {{.nosuchvariable}}\"]\n", i, i, trace)
 		fmt.Fprintf(&b, "  skipTask%d:\n    condition: \"exit 1\"\n    command: [\"echo skipTask%d >> %s\"]\n", i, i, trace)
 		fmt.Fprintf(&b, "  pok%d:\n    command: [\"echo okPipe%d >> %s\"]\n", i, i, trace)
 		fmt.Fprintf(&b, "  pfail%d:\n    command: [\"echo failPipe%d >> %s; exit 4\"]\n", i, i, trace)
@@ -82,9 +84,7 @@ func (s *shared) cliLevel(cases []cliCase) int {
 			wantExit = 1
 		}
 		if (res.Exit == 0) != (wantExit == 0) {
-			add("exit-status-not-faithful", fmt.Sprintf("process exit status %d, model %d", res.Exit, wantExit))
-		} else if res.Exit != 0 && res.Exit != 1 {
-			add("exit-status-unexpected", fmt.Sprintf("process exit status %d", res.Exit))
+			add("exit-status-not-faithful", fmt.Sprintf("process exit status %d, model: %s", res.Exit, map[bool]string{true: "zero", false: "non-zero"}[wantExit == 0]))
 		}
 		var want []string
 		for _, idx := range c.Ran {
@@ -150,8 +150,8 @@ func run(env *core.Env, rep *core.Report, prop string) *core.Result {
 		s.note("Cli", r, fmt.Sprintf("%d (argument list, entry form) cases; ExitZeroIffAllSucceeded, InOrderNothingAfterFailure, Terminates hold", len(clis)))
 	})
 	wg.Wait()
-	if len(grammar) != 147960 || len(status) != 3064 || len(clis) != 774 {
-		core.Broken("generators emitted %d/%d/%d cases, expected 147960/3064/774", len(grammar), len(status), len(clis))
+	if len(grammar) != 147960 || len(status) != 3064 || len(clis) != 1752 {
+		core.Broken("generators emitted %d/%d/%d cases, expected 147960/3064/1752", len(grammar), len(status), len(clis))
 	}
 	replayed, nontrivial := 0, 0
 	gsel := grammar
@@ -183,7 +183,7 @@ func run(env *core.Env, rep *core.Report, prop string) *core.Result {
 			csel = nil
 			rng := env.Rand("cli-sample")
 			for _, c := range clis {
-				if len(c.Argv) <= 2 || rng.Intn(3) == 0 {
+				if len(c.Argv) <= 1 || len(c.Argv) == 2 && rng.Intn(2) == 0 || rng.Intn(6) == 0 {
 					csel = append(csel, c)
 				}
 			}
